@@ -127,7 +127,7 @@ def main():
                 "and on y, attribute vs attribute across variables, membership of x in y.items) and seeded random subsets of the "
                 "6-atom 'logic6' and the 'access' vocabulary (attribute chains x.ref.a, object-valued comparisons, x != y), each "
                 "with the reference Answers for every assignment of {empty, singleton, complete} domains to x and y and every "
-                "selection (x | y | x,y) that the statement settles; EQLFlat.tla adds 184 conditions over f = flatten(y.items), EQLTerms.tla 1024 over indexing, method calls, a nested query used as a variable and bare truth-valued attributes; every case is built with the public API (entity / set_of, "
+                "selection (x | y | x,y) that the statement settles; EQLFlat.tla adds 184 conditions over f = flatten(y.items), EQLTerms.tla 1388 over indexing, method calls, a nested query used as a variable and bare truth-valued attributes; every case is built with the public API (entity / set_of, "
                 "in_ / contains alternating) and evaluated (every fifth condition on a world whose objects are falsy Python objects); result rows are compared as sets. Non-trivial = a condition with at "
                 "least one connective and a case with a non-empty expected set; distinct by (condition, domains, selection).")
     # layer I => R on the model (the pipeline returns exactly the satisfying rows), reference sanity, non-vacuity
@@ -168,8 +168,8 @@ def main():
         cases.append({"cond": j["cond"], "cases": cs, "variant": i % 6, "family": "flat", "reeval": False, "falsy": i % 5 == 4})
     # derived terms (EQLTerms.tla): indexing, method calls with and without arguments, a nested query used as a variable
     terms = [j for j in ctx.run_tlc("EQLTerms", "EQLTerms_gen.cfg", expect="ok").json_lines() if isinstance(j, dict) and "cond" in j]
-    if len(terms) != 1024:
-        raise MachineryError(f"EQLTerms_gen: expected 1024 conditions, got {len(terms)}")
+    if len(terms) != 1388:
+        raise MachineryError(f"EQLTerms_gen: expected 1388 conditions, got {len(terms)}")
     for i, j in enumerate(terms):
         cs = [{"dom": {"x": c["dx"], "y": c["dy"], "__terms__": True}, "sel": c["sel"], "exp": c["exp"]} for c in j["cases"]]
         if not thorough:
@@ -209,6 +209,13 @@ def main():
             if not err and exp != got and c["family"] == "terms" and '"pair"], ["tlit"' in json.dumps(c["cond"]) + json.dumps(c["cond"]).replace('"pair"], ["attr", "y", "pair"]', '"pair"], ["tlit"'):
                 # signature (finding F37): == / != between two collection values compares them as SETS
                 ctx.known_finding("C01-F37", {"cond": c["cond"], "dom": cs["dom"], "sel": cs["sel"], "missing": sorted(exp - got), "extra": sorted(got - exp)})
+                continue
+            if (err or exp != got) and c["family"] == "quant" and '["forall", "y", ["or"' in json.dumps(c["cond"]) \
+                    and not (c["cond"][0] == "and" and c["cond"][1][0] == "cmp" and c["cond"][2][0] == "forall"):
+                # signature (finding F38): a union-form or_ inside a for_all whose outer variable is not yet bound by a comparison
+                # written before it (and_(cmp, for_all(...)) must be right)
+                ctx.known_finding("C01-F38", {"cond": c["cond"], "dom": cs["dom"], "sel": cs["sel"], "error": err,
+                                              "missing": sorted(exp - got), "extra": sorted(got - exp)})
                 continue
             missing_only = not err and exp != got and not (got - exp) and c["family"] == "quant"
             if missing_only and f04_signature(c["cond"], cs["sel"]):
